@@ -456,6 +456,7 @@ void sim_reset_run_state()
   g.affinity = 0;
   g.spurious = 0;
   g.clock_jumps = 0;
+  g.clock_ties = 0;
   g.step_cap = 200000;
   g.tso = false;
   g.tso_stores = g.tso_delays = 0;
@@ -643,6 +644,7 @@ void sim_set_cores(int n) { g.cores = n; }
 void sim_set_affinity(int n) { g.affinity = n; }
 void sim_set_spurious(int on) { g.spurious = on; }
 void sim_set_clock_jumps(int on) { g.clock_jumps = on; }
+void sim_set_clock_ties(int on) { g.clock_ties = on; }
 void sim_set_step_cap(uint64_t cap) { g.step_cap = cap; }
 void sim_set_tso(int on) { g.tso = on != 0; }
 
